@@ -14,7 +14,6 @@ import (
 	"time"
 
 	"github.com/fatedier/frp/pkg/nathole"
-	"github.com/fatedier/frp/pkg/util/log"
 
 	"verifharness/hx"
 )
@@ -310,7 +309,7 @@ Print NCLPUBLIC.
 `
 
 func runNatHole(cfg *hx.RunCfg) error {
-	log.InitLogger("/dev/null", "error", 0, true)
+	hx.Quiet()
 	g := hx.NewGen(cfg.Seed)
 	dist := map[string]int{}
 	var fails []map[string]string
